@@ -37,7 +37,11 @@ func runCheck(args []string) {
 	prop := fs.String("prop", "", "property id")
 	tier := fs.String("tier", "quick", "quick|thorough")
 	verif := fs.String("verif", "/verif", "verif root")
+	outRoot := fs.String("out", "", "output root for evidence/replays/work (default: the verif root)")
 	fs.Parse(args)
+	if *outRoot == "" {
+		*outRoot = *verif
+	}
 	if *prop == "" {
 		fmt.Fprintln(os.Stderr, "need -prop")
 		os.Exit(2)
@@ -52,9 +56,9 @@ func runCheck(args []string) {
 	if *tier == "thorough" {
 		quick, full = 10*time.Second, 180*time.Second
 	}
-	evPath := filepath.Join(*verif, "evidence", *prop+".json")
+	evPath := filepath.Join(*outRoot, "evidence", *prop+".json")
 	os.MkdirAll(filepath.Dir(evPath), 0o755)
-	replayDir := filepath.Join(*verif, "replays", *prop)
+	replayDir := filepath.Join(*outRoot, "replays", *prop)
 	os.RemoveAll(replayDir)
 	os.MkdirAll(replayDir, 0o755)
 
@@ -100,7 +104,7 @@ func runCheck(args []string) {
 		writeEvidence(evPath, *prop, *tier, seed, nil, nil, ps, time.Since(t0).Seconds(), violations, nil, nil)
 		os.Exit(1)
 	}
-	work := filepath.Join(*verif, "work", "smt-"+*prop)
+	work := filepath.Join(*outRoot, "work", "smt-"+*prop)
 	os.RemoveAll(work)
 	results := e.RunContracts(func(c *Contract) bool {
 		if c.Kind == "lemma" && *tier != "thorough" && c.Opts["tier"] == "thorough" {
@@ -169,7 +173,7 @@ func runCheck(args []string) {
 				"status": ob.Status, "solver": ob.Solver, "solver_output": ob.Output}
 			confirmed := false
 			if ob.Status == "refuted" && ob.Model != "" {
-				rr := e.replay(ob, filepath.Join(*verif, "work", "replay-"+*prop))
+				rr := e.replay(ob, filepath.Join(*outRoot, "work", "replay-"+*prop))
 				rep["replay"] = rr
 				confirmed = rr != nil && rr.Confirmed
 			}
